@@ -61,7 +61,7 @@ def deliver_assertions(eng, ctx, cfg, stream, frames, payloads, headers, cutsets
         chunks = HC.split(stream, cuts)
         w = {"kind": "hdlc", "cfg": list(cfg), "chunks": chunks, "expect": exp_w, "exact": True,
              "payloads": [None if not p else SBytes(p) for p in payloads]}
-        ctx.intend(w)
+        ctx.intend(w, alts=lambda: (dict(w, chunks=HC.split(stream, c)) for c in cutsets))
         if twin:
             w["twin"] = twin
             _, got = HC.read_chunks_twin(cfg, chunks, twin)
